@@ -437,30 +437,37 @@ Regs0 == [c |-> [i \in Idx |-> 0], d |-> [i \in Idx |-> 0], g |-> [i \in Idx |->
 St0   == [R |-> Regs0, out |-> <<>>, e |-> 0, u |-> FALSE]
 UndefSt(S) == [S EXCEPT !.u = TRUE]
 
+\* Whatever the scanner leaves of the text is ordinary material: character tokens are delivered
+\* (typeset) in order.  (Anything else after the value is outside the generated domain.)
+Deliver(S, t, p) ==
+  LET rest == IF p > Len(t) THEN <<>> ELSE SubSeq(t, p, Len(t))
+  IN IF \A i \in 1..Len(rest) : rest[i] >= 0 /\ rest[i] < 1000
+     THEN [S EXCEPT !.out = @ \o rest] ELSE UndefSt(S)
+
 \* step = [op, t (1 count, 2 dimen, 3 skip), i, rhs]; rhs starts after the register number
 StepSet(S, s, F, dev) ==
   LET p == OptEquals(s.rhs, 1)
   IN IF s.t = 1 THEN LET r == ScanInt(s.rhs, p, S.R)
                      IN IF r.u THEN UndefSt(S)
-                        ELSE [S EXCEPT !.R.c[s.i] = r.v, !.e = @ + r.e]
+                        ELSE Deliver([S EXCEPT !.R.c[s.i] = r.v, !.e = @ + r.e], s.rhs, r.p)
      ELSE IF s.t = 2 THEN LET r == ScanDimen(s.rhs, p, S.R, F, FALSE, dev)
                           IN IF r.u THEN UndefSt(S)
-                             ELSE [S EXCEPT !.R.d[s.i] = r.v, !.e = @ + r.e]
+                             ELSE Deliver([S EXCEPT !.R.d[s.i] = r.v, !.e = @ + r.e], s.rhs, r.p)
      ELSE LET r == ScanGlue(s.rhs, p, S.R, F, dev)
           IN IF r.u THEN UndefSt(S)
-             ELSE [S EXCEPT !.R.g[s.i] = r.g, !.e = @ + r.e]
+             ELSE Deliver([S EXCEPT !.R.g[s.i] = r.g, !.e = @ + r.e], s.rhs, r.p)
 
 StepAdvance(S, s, F, dev) ==
   LET p == ScanKw(s.rhs, 1, KwBy).p
   IN IF s.t = 1 THEN LET r == ScanInt(s.rhs, p, S.R)
                      IN IF r.u THEN UndefSt(S)
-                        ELSE [S EXCEPT !.R.c[s.i] = WrapAdd(r.v, @), !.e = @ + r.e]
+                        ELSE Deliver([S EXCEPT !.R.c[s.i] = WrapAdd(r.v, @), !.e = @ + r.e], s.rhs, r.p)
      ELSE IF s.t = 2 THEN LET r == ScanDimen(s.rhs, p, S.R, F, FALSE, dev)
                           IN IF r.u THEN UndefSt(S)
-                             ELSE [S EXCEPT !.R.d[s.i] = WrapAdd(r.v, @), !.e = @ + r.e]
+                             ELSE Deliver([S EXCEPT !.R.d[s.i] = WrapAdd(r.v, @), !.e = @ + r.e], s.rhs, r.p)
      ELSE LET r == ScanGlue(s.rhs, p, S.R, F, dev)
           IN IF r.u THEN UndefSt(S)
-             ELSE [S EXCEPT !.R.g[s.i] = GlueSum(r.g, @, dev), !.e = @ + r.e]
+             ELSE Deliver([S EXCEPT !.R.g[s.i] = GlueSum(r.g, @, dev), !.e = @ + r.e], s.rhs, r.p)
 
 \* \multiply and \divide: scan_int, compute, "Arithmetic overflow" => one error, no change
 StepMulDiv(S, s, dev) ==
@@ -471,20 +478,20 @@ StepMulDiv(S, s, dev) ==
      ELSE IF s.t = 1
      THEN LET a == IF mul THEN MulInt(S.R.c[s.i], k.v, dev) ELSE XOverN(S.R.c[s.i], k.v)
           IN IF a.u THEN UndefSt(S)
-             ELSE IF a.err THEN [S EXCEPT !.e = @ + k.e + 1]
-             ELSE [S EXCEPT !.R.c[s.i] = a.v, !.e = @ + k.e]
+             ELSE IF a.err THEN Deliver([S EXCEPT !.e = @ + k.e + 1], s.rhs, k.p)
+             ELSE Deliver([S EXCEPT !.R.c[s.i] = a.v, !.e = @ + k.e], s.rhs, k.p)
      ELSE IF s.t = 2
      THEN LET a == IF mul THEN MulDim(S.R.d[s.i], k.v) ELSE XOverN(S.R.d[s.i], k.v)
           IN IF a.u THEN UndefSt(S)
-             ELSE IF a.err THEN [S EXCEPT !.e = @ + k.e + 1]
-             ELSE [S EXCEPT !.R.d[s.i] = a.v, !.e = @ + k.e]
+             ELSE IF a.err THEN Deliver([S EXCEPT !.e = @ + k.e + 1], s.rhs, k.p)
+             ELSE Deliver([S EXCEPT !.R.d[s.i] = a.v, !.e = @ + k.e], s.rhs, k.p)
      ELSE LET g == S.R.g[s.i]
               a == IF mul THEN <<MulDim(g.w, k.v), MulDim(g.st, k.v), MulDim(g.sh, k.v)>>
                    ELSE <<XOverN(g.w, k.v), XOverN(g.st, k.v), XOverN(g.sh, k.v)>>
           IN IF AnyU(a) THEN UndefSt(S)
-             ELSE IF AnyErr(a) THEN [S EXCEPT !.e = @ + k.e + 1]
-             ELSE [S EXCEPT !.R.g[s.i] = [g EXCEPT !.w = a[1].v, !.st = a[2].v, !.sh = a[3].v],
-                            !.e = @ + k.e]
+             ELSE IF AnyErr(a) THEN Deliver([S EXCEPT !.e = @ + k.e + 1], s.rhs, k.p)
+             ELSE Deliver([S EXCEPT !.R.g[s.i] = [g EXCEPT !.w = a[1].v, !.st = a[2].v, !.sh = a[3].v],
+                                    !.e = @ + k.e], s.rhs, k.p)
 
 \* \the<register> followed by the character ; (code 59) so that outputs are delimited
 StepThe(S, s) ==
